@@ -28,6 +28,21 @@ CLAIMED = {
         '(models/llc_models.py, proved per implementing class); secure data transfer (self.sec) off; sorted() order '
         'abstracted; termination of the aggregation while-loop not proved; AGF dispatch order not covered.',
    technique='contract-based deductive verification: AST->z3 VC generation (pyvc), loop invariants, interface contracts'),
+ 'C14': dict(
+   category='proof',
+   text='pn53x Chipset.command (verified on the pn532 subclass): the frame written equals an independently built '
+        'normal/extended frame for every command code and payload length (both sides of the 254/255 switch are one '
+        'symbolic case, data checksum via a prefix-sum measure); for every byte string the transport may return, the '
+        'call raises IOError, raises Chipset.Error for a well-framed error frame, or returns exactly the payload an '
+        'independent validator extracts. acr122 ccid_xfr_block/command and rcs380 Frame likewise. The eight shift '
+        'steps of calculate_crc equal the ISO/IEC 14443-3 Annex B byte step for all 2^24 (register, octet) pairs '
+        '(bit-vector query). add/check_crc_a/b end-to-end are bounded stand-ins (<=1 octet) and not counted.',
+   design_ref='DESIGN.md section 5 (C14)',
+   note='Transport is an environment model (arbitrary bytes or IOError per read). Log-call arguments are not '
+        'evaluated (cmd_code restricted to the codes in Chipset.CMD). The fold of the CRC step over a message is '
+        'argued on paper (both sides are left folds of step functions proved equal). _tt2_send_cmd_recv_rsp CRC '
+        'rejection and termination of the ACK-skipping loop are not covered.',
+   technique='contract-based deductive verification: AST->z3 VC generation (pyvc), bit-vector mode for the CRC'),
 }
 
 NOT_APPLICABLE = {}
